@@ -210,6 +210,56 @@ def forest_stats(root):
     return out
 
 
+def visit_log(root, single_visit, cap=4000):
+    """The node graph below `root` (ids in first-encounter order, children as ForestVisitor's callbacks hand them out) and the event
+    sequence a logging ForestVisitor produces on it: [0,n] in, [1,n] out, [2,n] token, [3,n] on_cycle.  None when longer than `cap`."""
+    from lark.parsers.earley_forest import ForestVisitor, TokenNode, PackedNode
+    ids = {}
+    def nid(n):
+        return ids.setdefault(id(n.token) if isinstance(n, TokenNode) else id(n), len(ids))
+    tok_ids = {}
+    kids, toks, order, stack, alive = {}, [], [], [root], []
+    while stack:
+        n = stack.pop()
+        i = nid(n)
+        if i in kids or i in tok_ids:
+            continue
+        alive.append(n)
+        if isinstance(n, TokenNode):
+            tok_ids[i] = True; toks.append(i); continue
+        ch = [c for c in n.children if c is not None]
+        kids[i] = [nid(c) for c in ch]
+        order.append(i)
+        stack.extend(reversed(ch))
+        if len(kids) > cap:
+            return None
+    ev = []
+    class Overflow(Exception):
+        pass
+    def push(e):
+        ev.append(e)
+        if len(ev) > cap:
+            raise Overflow()
+    class Log(ForestVisitor):
+        def visit_symbol_node_in(self, node):
+            push([0, nid(node)]); return iter(node.children)
+        def visit_symbol_node_out(self, node):
+            push([1, nid(node)])
+        def visit_packed_node_in(self, node):
+            push([0, nid(node)]); return iter(node.children)
+        def visit_packed_node_out(self, node):
+            push([1, nid(node)])
+        def visit_token_node(self, tok):
+            push([2, ids.get(id(tok), -1)])
+        def on_cycle(self, node, path):
+            push([3, nid(node)])
+    try:
+        Log(single_visit=single_visit).visit(root)
+    except Overflow:
+        return None
+    return {'nodes': order, 'kids': [[k, v] for k, v in kids.items()], 'toks': toks, 'sv': single_visit, 'root': nid(root), 'events': ev}
+
+
 def _forest_case(args):
     g, seed, want = args          # want: set of 'c04','c05','c20'
     from lark import Lark, Tree, Token
@@ -381,6 +431,7 @@ def _forest_case(args):
                             run['forest_trees'] = sorted(json.dumps(canon_tree(x)) for x in ex)
                         run['forest_one'] = json.dumps(canon_tree(t_one))
                         run['graph_nodes'] = len(forest_stats(root))
+                        run['visit_logs'] = [v for v in (visit_log(root, False), visit_log(root, True)) if v is not None]
             except Timeout:
                 run['forest_timeout'] = True
         # ---- C04: explicit ambiguity
